@@ -333,26 +333,30 @@ func leaderShipped(e raftpb.Entry) ([]byte, error) {
 	return cmd.MarshalVT()
 }
 
-// reference content after exactly the leader entries 1..i, for every i
-func referenceStates(h *c05history) ([]string, error) {
+// reference content after exactly the leader entries 1..i, for the wanted indices i (and the last one)
+func referenceStates(h *c05history, want map[uint64]bool) (map[uint64]string, error) {
 	ref, _, err := newRealFSM(pvfs.NewMem(), 0)
 	if err != nil {
 		return nil, err
 	}
 	defer ref.close()
-	out := make([]string, len(h.entries)+1)
-	out[0], _ = contentOf(ref.f)
+	out := map[uint64]string{}
+	if want[0] {
+		out[0], _ = contentHex(ref)
+	}
 	for i, e := range h.entries {
 		if e.Type == raftpb.EncodedEntry {
 			if _, err := ref.f.Update([]sm.Entry{{Index: e.Index, Cmd: e.Cmd[1:]}}); err != nil {
 				return nil, err
 			}
 		}
-		c, err := contentHex(ref)
-		if err != nil {
-			return nil, err
+		if want[e.Index] || i == len(h.entries)-1 {
+			c, err := contentHex(ref)
+			if err != nil {
+				return nil, err
+			}
+			out[e.Index] = c
 		}
-		out[i+1] = c
 	}
 	return out, nil
 }
@@ -386,6 +390,7 @@ type c05variant struct {
 	writesBefore    int
 	writesDuring    int
 	snapshotEntries uint64
+	bigBefore       int // puts of 4000-byte values before the follower starts: responses larger than the proposal size
 }
 
 func runC05Scenario(rf *runFlags, rnd *rand.Rand, sum *Summary, cf *CasesFile, v c05variant, caseNo int) error {
@@ -453,6 +458,17 @@ func runC05Scenario(rf *runFlags, rnd *rand.Rand, sum *Summary, cf *CasesFile, v
 	}
 	if err := write(v.writesBefore); err != nil {
 		return err
+	}
+	for i := 0; i < v.bigBefore; i++ {
+		ctx, cancel := context.WithTimeout(context.Background(), 5*time.Second)
+		res, err := lt.Put(ctx, &regattapb.PutRequest{Table: []byte(tname), Key: []byte(fmt.Sprintf("big%03d", i%40)), Value: bytes.Repeat([]byte{byte('a' + i%26)}, 4000)})
+		cancel()
+		if err != nil {
+			return err
+		}
+		if err := hist.fetchUpTo(sys.leader, res.Header.Revision); err != nil {
+			return err
+		}
 	}
 	if v.lateFollower {
 		if v.snapshotEntries > 0 { // compact the leader's log: the follower's first request is below the compaction point
@@ -610,11 +626,16 @@ func runC05Scenario(rf *runFlags, rnd *rand.Rand, sum *Summary, cf *CasesFile, v
 		sum.violate(caseNo, "after the leader stopped changing the follower's content differs from the leader's", in, fmt.Sprintf("leader %.300s follower %.300s", lc, fc))
 	}
 	// samples against the reference states
-	refs, err := referenceStates(hist)
+	wanted := map[uint64]bool{}
+	for _, s := range samples {
+		wanted[s.lidx] = true
+	}
+	refs, err := referenceStates(hist, wanted)
 	if err != nil {
 		return err
 	}
-	if refs[len(refs)-1] != lc {
+	lastIdx := uint64(len(hist.entries))
+	if refs[lastIdx] != lc {
 		return fmt.Errorf("harness: reference replay of the leader log differs from the leader's content")
 	}
 	var prev uint64
@@ -626,12 +647,12 @@ func runC05Scenario(rf *runFlags, rnd *rand.Rand, sum *Summary, cf *CasesFile, v
 			sum.violate(caseNo, "the follower's recorded leader index moved backwards", in, fmt.Sprintf("%d after %d (shard %d after %d)", s.lidx, prev, s.shard, prevShard))
 		}
 		prev, prevShard = s.lidx, s.shard
-		if int(s.lidx) >= len(refs) {
+		if s.lidx > lastIdx {
 			sum.violate(caseNo, "the follower records a leader index the leader never reached", in, fmt.Sprint(s.lidx))
 			continue
 		}
-		if s.content != refs[s.lidx] {
-			sum.violate(caseNo, "the follower's content differs from the leader's content at the recorded leader index", in, fmt.Sprintf("leader index %d: follower %.300s leader-at-index %.300s", s.lidx, s.content, refs[s.lidx]))
+		if want, ok := refs[s.lidx]; ok && s.content != want {
+			sum.violate(caseNo, "the follower's content differs from the leader's content at the recorded leader index", in, fmt.Sprintf("leader index %d: follower %.300s leader-at-index %.300s", s.lidx, s.content, want))
 			break
 		}
 	}
@@ -1057,6 +1078,7 @@ func runC05(args []string) error {
 		{name: "late follower, leader log compacted (snapshot recovery)", lateFollower: true, writesBefore: 60, writesDuring: 30, snapshotEntries: 1, maxMsg: 0},
 		{name: "small message size limit", writesBefore: 40, writesDuring: 30, maxMsg: 1500, lateFollower: true},
 		{name: "follower engine restart", writesBefore: 10, writesDuring: 50, restartFollower: true},
+		{name: "large backlog (responses cut into several proposals)", lateFollower: true, writesBefore: 5, bigBefore: 200, writesDuring: 10},
 	}
 	rounds := 1
 	if rf.Tier == "thorough" {
